@@ -814,6 +814,56 @@ func (e *Env) call(ce *CE) (CVal, error) {
 		}
 		old := fg.lookup(e.old.st, vname, vsort)
 		return CVal{T: Eq(cur, Store(old, idx, Store(Select(old, idx), key.T, val.T)))}, nil
+	case "addrOf":
+		// addrOf(x): the heap cell in which the (captured / address-taken) local x lives
+		if args[0].Kind == "ident" {
+			if a, ok := e.vars["&"+args[0].Name]; ok {
+				return a, nil
+			}
+		}
+		return CVal{}, fmt.Errorf("addrOf: %s does not live in a cell", args[0])
+	case "deref":
+		// deref(p): current content of the cell p points to (free variables of closures are such pointers)
+		a, err := e.eval(args[0])
+		if err != nil {
+			return CVal{}, err
+		}
+		if a.T == nil || a.Ty == nil {
+			return CVal{}, fmt.Errorf("deref of %s", args[0])
+		}
+		pt, ok := a.Ty.Underlying().(*types.Pointer)
+		if !ok {
+			return CVal{}, fmt.Errorf("deref of non-pointer %s", args[0])
+		}
+		if stt, isStruct := pt.Elem().Underlying().(*types.Struct); isStruct {
+			return CVal{T: fg.loadStruct(e.st, a.T, pt.Elem(), stt), Ty: pt.Elem()}, nil
+		}
+		cn, hs := fg.cellVar(pt.Elem())
+		return CVal{T: Select(fg.lookup(e.st, cn, hs), a.T), Ty: pt.Elem()}, nil
+	case "closureOf":
+		// closureOf(f, "Outer$1"): f is a closure of the function literal whose (short) name ends with the given text
+		f, err := e.eval(args[0])
+		if err != nil {
+			return CVal{}, err
+		}
+		if f.T == nil || f.T.Sort != SInt || args[1].Kind != "str" {
+			return CVal{}, fmt.Errorf("closureOf needs a function value and a literal name")
+		}
+		return CVal{T: StrSuffixOf(StrLit(args[1].Str), App("closureFn", SString, f.T))}, nil
+	case "closureBinds":
+		// closureBinds(f, i, v): the i-th captured variable (go/ssa binding order) of closure f is v
+		f, err := e.eval(args[0])
+		if err != nil {
+			return CVal{}, err
+		}
+		v, err := e.eval(args[2])
+		if err != nil {
+			return CVal{}, err
+		}
+		if f.T == nil || v.T == nil || args[1].Kind != "int" {
+			return CVal{}, fmt.Errorf("bad closureBinds arguments")
+		}
+		return CVal{T: Eq(App(fmt.Sprintf("closureBind%d_%s", args[1].Int, sanitize(v.T.Sort)), v.T.Sort, f.T), v.T)}, nil
 	case "inDom":
 		m, err := e.eval(args[0])
 		if err != nil {
@@ -1152,6 +1202,19 @@ func (e *Env) resolveType(ce *CE) (types.Type, error) {
 		return types.NewSlice(types.Typ[types.Uint8]), nil
 	case "error":
 		return types.Universe.Lookup("error").Type(), nil
+	case "string":
+		return types.Typ[types.String], nil
+	case "int":
+		return types.Typ[types.Int], nil
+	case "bool":
+		return types.Typ[types.Bool], nil
+	}
+	if strings.HasPrefix(s, "[]") {
+		et, err := e.resolveType(&CE{Kind: "str", Str: s[2:]})
+		if err != nil {
+			return nil, err
+		}
+		return types.NewSlice(et), nil
 	}
 	ptr := false
 	if strings.HasPrefix(s, "*") {
